@@ -18,7 +18,7 @@ RULE = ('per case one security configuration (COSE_Mac0 with HMAC-256/384/512; t
         'suppression cannot explain non-delivery. The reference decoder classifies each copy as covered / surely-uncovered / other. '
         'One evaluation = one altered reception; distinct = (configuration digest, alteration).')
 COMPONENTS = bc.COMPONENTS
-PROBES = ('class.covered', 'class.uncovered', 'class.other', 'kind.mac0', 'kind.foreign', 'alt.bitflip', 'alt.field', 'alt.wrong-key',
+PROBES = ('class.covered', 'class.uncovered', 'class.other', 'kind.mac0', 'kind.foreign', 'kind.split_assoc', 'alt.bitflip', 'alt.field', 'alt.wrong-key',
           'alt.missing-key', 'cov.primary', 'cov.target-btsd', 'cov.target-meta', 'cov.source', 'cov.scope', 'cov.tag', 'cov.cose-protected')
 ASSUMPTIONS = ['schedules and clocks play no role: the deciding dimension is the corruption fault and the key / scope configuration',
                'COSE_Mac / COSE_Encrypt with wrapped content keys need the pycose fork pinned in pyproject.toml; upstream pycose 1.1.0 installed here raises in those paths, so they are not exercised',
@@ -33,8 +33,9 @@ def gen(ch, tier):
                 others=ch.weighted('others', (2, 3, 1)), pri_crc=ch.choice('pc', (0, 0, 2, 1)), blk_crc=ch.choice('bc', (0, 0, 1, 2)),
                 window=ch.pick('window', 1 << 16), wsize=24 if tier == 'quick' else 96, accept=ch.coin('accept', 1, 2),
                 fixup=ch.coin('fixup', 2, 3), dst_key=ch.choice('dstkey', ('right', 'right', 'right', 'wrong', 'missing')))
+    plan['split_assoc'] = plan['tgt_ext'] and ch.coin('split', 1, 2)
     if kind.startswith('foreign'):
-        plan['scope'] = ch.choice('scope', ([[0, 1], [-1, 1]], [[0, 1], [-1, 1], [-2, 1]], [[-1, 1]], [[0, 1]], [[-1, 1], [3, 2]], [[0, 1], [-1, 3]]))
+        plan['scope'] = ch.choice('scope', ([[0, 1], [-1, 1]], [[0, 1], [-1, 1], [-2, 1]], [[-1, 1]], [[0, 1]], [[-1, 1], [3, 2]], [[0, 1], [-1, 3]], [[0, 1], [-1, 1], [3, 3]], [[-1, 1], [3, 1]]))
         plan['addl'] = ch.coin('addl', 1, 3)
         plan['alg'] = ch.choice('falg', (5, 6, 7))
         plan['others'] = max(1, plan['others'])
@@ -50,6 +51,9 @@ def _policy(plan):
         ops = [dict(type='bib', kid='kw' + kind[6:], content_alg='HMAC256', content_key='5a' * 32)]
     else:
         return []
+    if plan['tgt_ext'] and plan.get('split_assoc'):
+        # two associations, the one for the extension block listed first: operations are not in ascending target order
+        return [dict(src='.*', dst='.*', targets=[192], ops=ops), dict(src='.*', dst='.*', targets=[1], ops=ops)]
     return [dict(src='.*', dst='.*', targets=targets, ops=ops)]
 
 
@@ -161,6 +165,8 @@ def classify(orig, alt_bytes, plan):
             covered.add('cov.scope-block-btsd')
         elif label.startswith('meta:') and int(label[5:]) in targets and scope.get(-1, 0) & 1:
             covered.add('cov.target-meta')
+        elif label.startswith('meta:') and int(label[5:]) in named and scope[int(label[5:])] & 1:
+            covered.add('cov.scope-block-meta')
         elif label.startswith('asb:'):
             what = label.split(':', 2)[2]
             if what == 'source':
@@ -236,6 +242,12 @@ def field_alterations(orig, plan):
         elif len(msg) > 4:
             msg[4][0][1][4] = b'nobody'
 
+    def attach_original(msg):
+        msg[2] = tgt['btsd']
+
+    # the target altered while the COSE message carries the original content as an attached payload
+    alts.append(('tgt.btsd+attached-original', {}, {tnum: dict(btsd=tgt['btsd'][:-1] + bytes([tgt['btsd'][-1] ^ 1])),
+                                                   bib['num']: dict(btsd=asb_edit(edit_msg(0, attach_original)))}))
     alts.append(('asb.source', {}, {bib['num']: dict(btsd=asb_edit(set_source))}))
     alts.append(('asb.scope', {}, {bib['num']: dict(btsd=asb_edit(set_scope))}))
     alts.append(('cose.tag', {}, {bib['num']: dict(btsd=asb_edit(edit_msg(0, flip_tag)))}))
@@ -250,9 +262,11 @@ def field_alterations(orig, plan):
 
 def _drive(run, plan, har):
     stats = run.stats
-    cfg = bc.digest({key: plan[key] for key in ('kind', 'plen', 'tgt_ext', 'others', 'pri_crc', 'blk_crc', 'dst_key', 'accept') if key in plan} | {'scope': plan.get('scope')})
+    cfg = bc.digest({key: plan[key] for key in ('kind', 'plen', 'tgt_ext', 'split_assoc', 'others', 'pri_crc', 'blk_crc', 'dst_key', 'accept') if key in plan} | {'scope': plan.get('scope')})
     kindtag = 'kind.' + ('mac0' if plan['kind'].startswith('mac0') else ('mac-kw' if plan['kind'] == 'foreign-kw' else 'foreign'))
     stats[kindtag] = 1
+    if plan.get('split_assoc') and not plan['kind'].startswith('foreign'):
+        stats['kind.split_assoc'] = 1
     seqno = 0
     first = make_copy(plan, har, seqno)
     if first is None:
